@@ -6,7 +6,15 @@ import (
 	"sort"
 	"strconv"
 	"strings"
+	"time"
 
+	"github.com/go-kit/log"
+	"github.com/prometheus/prometheus/model/labels"
+	"go.uber.org/atomic"
+
+	"github.com/thanos-io/thanos/pkg/component"
+	"github.com/thanos-io/thanos/pkg/info/infopb"
+	"github.com/thanos-io/thanos/pkg/store"
 	"github.com/thanos-io/thanos/pkg/store/storepb"
 	"github.com/thanos-io/thanos/verifharness/hlib"
 )
@@ -16,6 +24,9 @@ import (
 // ops (stores and encodings as in e2e.go / c08.go):
 //   st.names  <kind> <blocks> <start> <end> <matchers> <without>            LabelNames  -> ok <name ranks> | <error enum>
 //   st.values <kind> <blocks> <start> <end> <matchers> <without> <label>    LabelValues -> ok <value ranks> | invalid | <error enum>
+//
+//   o.proxy.names  <blocks> <start> <end> <matchers> <without>            the same through a ProxyStore in front of the TSDBStore of
+//   o.proxy.values <blocks> <start> <end> <matchers> <without> <label>    the first block and the BucketStore of all blocks (oracle only)
 //
 // oracle (on the implementation; the Series call with the same selectors, range and replica labels is made next to
 // the label call):
@@ -81,6 +92,119 @@ func (r *stReq) labelValues(label string) ([]string, error, bool) {
 	}
 }
 
+// ---- the proxy in front of both stores
+
+type localClient struct {
+	storepb.StoreClient
+	name       string
+	lsets      []labels.Labels
+	mint, maxt int64
+}
+
+func (c localClient) LabelSets() []labels.Labels         { return c.lsets }
+func (c localClient) TimeRange() (int64, int64)          { return c.mint, c.maxt }
+func (c localClient) TSDBInfos() []infopb.TSDBInfo       { return nil }
+func (c localClient) SupportsSharding() bool             { return true }
+func (c localClient) SupportsWithoutReplicaLabels() bool { return true }
+func (c localClient) String() string                     { return c.name }
+func (c localClient) Addr() (string, bool)               { return c.name, true }
+func (c localClient) Matches([]*labels.Matcher) bool     { return true }
+
+func (r *stReq) proxy() (*store.ProxyStore, bool) {
+	bs, err := r.b.bucketStore(defaultBucketCfg())
+	if err != nil {
+		return nil, false
+	}
+	lo, hi := r.b.blocks[0].mint, r.b.blocks[0].maxt
+	seen := map[string]bool{}
+	var lsets []labels.Labels
+	for _, b := range r.b.blocks {
+		if b.mint < lo {
+			lo = b.mint
+		}
+		if b.maxt > hi {
+			hi = b.maxt
+		}
+		l := promLabels(b.ext)
+		if !seen[l.String()] {
+			seen[l.String()] = true
+			lsets = append(lsets, l)
+		}
+	}
+	clients := []store.Client{
+		localClient{storepb.ServerAsClient(r.b.tsdbs[0], *atomic.NewBool(false)), "tsdb", []labels.Labels{promLabels(r.b.blocks[0].ext)}, r.b.blocks[0].mint, r.b.blocks[0].maxt},
+		localClient{storepb.ServerAsClient(bs, *atomic.NewBool(false)), "bucket", lsets, lo, hi},
+	}
+	return store.NewProxyStore(log.NewNopLogger(), nil, func() []store.Client { return clients }, component.Query, labels.EmptyLabels(), time.Minute, store.EagerRetrieval), true
+}
+
+func execProxy(c *hlib.Ctx, tok []string) string {
+	values := tok[0] == "o.proxy.values"
+	if (values && len(tok) != 7) || (!values && len(tok) != 6) {
+		return "bad-op"
+	}
+	r, ok := parseStReq(append([]string{tok[0], "bkt"}, tok[1:]...))
+	if !ok {
+		return "bad-op"
+	}
+	p, ok := r.proxy()
+	if !ok {
+		return "bad-op"
+	}
+	ctx := context.Background()
+	srv := &seriesServer{ctx: ctx}
+	serr := p.Series(&storepb.SeriesRequest{MinTime: r.mint, MaxTime: r.maxt, Matchers: r.sms, WithoutReplicaLabels: r.without, SkipChunks: true,
+		PartialResponseStrategy: storepb.PartialResponseStrategy_ABORT}, srv)
+	if !values {
+		resp, err := p.LabelNames(ctx, &storepb.LabelNamesRequest{Start: r.mint, End: r.maxt, Matchers: r.sms, WithoutReplicaLabels: r.without,
+			PartialResponseStrategy: storepb.PartialResponseStrategy_ABORT})
+		if err != nil {
+			return errEnum(err)
+		}
+		if serr != nil {
+			c.Count("proxy:series-call-" + errEnum(serr))
+			return "ok " + showRanks(nameTab, resp.Names)
+		}
+		have := nameSet(resp.Names)
+		for _, f := range srv.frames {
+			for _, l := range f.lset {
+				if _, ok := have[l.Name]; !ok {
+					c.Violation("name-missing", fmt.Sprintf("proxy: series %s is returned by Series, LabelNames answers %v", f.lset, resp.Names))
+				}
+			}
+		}
+		if len(srv.frames) > 0 {
+			c.Count("proxy:names-checked-against-series")
+		}
+		return "ok " + showRanks(nameTab, resp.Names)
+	}
+	ln, err := strconv.Atoi(tok[6])
+	if err != nil || ln < 1 || ln >= len(nameTab) {
+		return "bad-op"
+	}
+	resp, err := p.LabelValues(ctx, &storepb.LabelValuesRequest{Label: nameTab[ln], Start: r.mint, End: r.maxt, Matchers: r.sms, WithoutReplicaLabels: r.without,
+		PartialResponseStrategy: storepb.PartialResponseStrategy_ABORT})
+	if err != nil {
+		return errEnum(err)
+	}
+	if serr != nil {
+		c.Count("proxy:series-call-" + errEnum(serr))
+		return "ok " + showRanks(valueTab, resp.Values)
+	}
+	have := nameSet(resp.Values)
+	for _, f := range srv.frames {
+		if v := f.lset.Get(nameTab[ln]); v != "" {
+			if _, ok := have[v]; !ok {
+				c.Violation("value-missing", fmt.Sprintf("proxy: series %s is returned by Series, LabelValues(%s) answers %v", f.lset, nameTab[ln], resp.Values))
+			}
+		}
+	}
+	if len(srv.frames) > 0 {
+		c.Count("proxy:values-checked-against-series")
+	}
+	return "ok " + showRanks(valueTab, resp.Values)
+}
+
 func strictlySorted(xs []string) bool {
 	for i := 1; i < len(xs); i++ {
 		if xs[i-1] >= xs[i] {
@@ -95,6 +219,8 @@ func execC07(c *hlib.Ctx, tok []string) string {
 		return "bad-op"
 	}
 	switch tok[0] {
+	case "o.proxy.names", "o.proxy.values":
+		return execProxy(c, tok)
 	case "st.names":
 		if len(tok) != 7 {
 			return "bad-op"
@@ -222,9 +348,16 @@ func genC07(c *hlib.Ctx) {
 			ans := c.Do(fmt.Sprintf("st.names %s %s %d %d %s %s", kind, tb, mint, maxt, showMatchers(ms), without), true)
 			c.Count("names:answer-" + answerKind(ans))
 			// values of: a stored name, an external name, a dropped name, a name nobody has
-			for _, ln := range []int{g.storedPool[r.Intn(len(g.storedPool))], g.extPool[r.Intn(len(g.extPool))], pickInt(r, 1, 3, 8, 12)} {
+			lns := []int{g.storedPool[r.Intn(len(g.storedPool))], g.extPool[r.Intn(len(g.extPool))], pickInt(r, 1, 3, 8, 12)}
+			for _, ln := range lns {
 				ans := c.Do(fmt.Sprintf("st.values %s %s %d %d %s %s %d", kind, tb, mint, maxt, showMatchers(ms), without, ln), true)
 				c.Count("values:answer-" + answerKind(ans))
+			}
+			// the same through the proxy in front of both stores (bucket stores need external labels on every block)
+			if kind == "bkt" && r.Chance(1, 2) {
+				c.Count("st:proxy")
+				c.Do(fmt.Sprintf("o.proxy.names %s %d %d %s %s", tb, mint, maxt, showMatchers(ms), without), true)
+				c.Do(fmt.Sprintf("o.proxy.values %s %d %d %s %s %d", tb, mint, maxt, showMatchers(ms), without, lns[r.Intn(3)]), true)
 			}
 		}
 	}
